@@ -30,7 +30,10 @@ def trees(tier):
     dup += [("writedata", "d1", "near1", "N", 3000), ("writeflip", "d2", "near2", "N", 3000, 2999),
             ("writeflip", "d2", "near3", "N", 3000, 0), ("writedata", "d2", "prefix", "N", 2048),
             ("write", "d1", "zero1", 0, 0), ("write", "d2", "zero2", 0, 1),
-            ("symlink", "d1", "ln", "g2"), ("hardlink", "d1", "hl", "g2"), ("mkdir", "d2", "ed")]
+            ("symlink", "d1", "ln", "g2"), ("hardlink", "d1", "hl", "g2"), ("mkdir", "d2", "ed"),
+            # hidden names
+            ("write", "d1", ".profile", 100, 0), ("write", "d2", ".netrc", 90, 0), ("write", "d1", ".config/app.ini", 120, 0),
+            ("symlink", "d2", ".latest", "g2")]
     t["dups"] = dup
     odd = [("write", "d1", "anchor", 700, 0), ("write", "d2", "anchor", 700, 1)]
     for i, n in enumerate(ODD_NAMES):
@@ -300,6 +303,29 @@ def check_repool(L, where, share):
     """an existing pool must follow the array: a file moved to another disk keeping its relative path and time-stamp,
     and a changed share prefix, both only change the TARGET of links that already exist"""
     v = []
+    # hidden (dot) names: one is moved to the other disk keeping path and stamp, the others (file, link, whole hidden directory)
+    # are deleted; after sync + pool the pool must again hold exactly the links of the recorded state
+    c = L.content()
+    dots = [(d.name.decode(), f.sub.decode(errors="surrogateescape")) for d in c.disks.values() for f in d.files
+            if any(part.startswith(".") for part in f.sub.decode(errors="surrogateescape").split("/"))]
+    dots += [(d.name.decode(), sub.decode(errors="surrogateescape")) for d in c.disks.values() for k, sub, to in d.links
+             if any(part.startswith(".") for part in sub.decode(errors="surrogateescape").split("/"))]
+    if dots:
+        (d0, s0) = dots[0]
+        other = [x for x in L.cfg.disknames if x != d0][0]
+        if os.path.isfile(L.p(d0, s0)) and not os.path.islink(L.p(d0, s0)) and not os.path.lexists(L.p(other, s0)):
+            L.write(other, s0, L.read(d0, s0), L.mtime_ns(d0, s0))
+        for dn, sub in dots:
+            if os.path.lexists(L.p(dn, sub)):
+                L.rm(dn, sub)
+        r = L.run("sync")
+        if r.rc == 0:
+            r = L.run("pool")
+            c2 = L.content()
+            got, want = pool_links(L), pool_wanted(L, c2, share)
+            if r.rc != 0 or got != want:
+                wrong = [repr((k, got.get(k), want.get(k))) for k in sorted(set(got) | set(want)) if got.get(k) != want.get(k)][:3]
+                v.append(dict(kind="pool-not-following-hidden-names", where=where, wrong=wrong))
     c = L.content()
     moved = None
     for d in c.disks.values():
